@@ -1,5 +1,5 @@
 import MxModel.Proofs.BackupGen
-import MxModel.Proofs.IOSessionInv
+import MxModel.Proofs.IOSessionLoad
 import MxModel.Proofs.BackupSeq
 import MxModel.Proofs.BackupSession
 import MxModel.Proofs.BackupPolicy
@@ -608,5 +608,18 @@ example :
     IOSession.specsOf (IOSession.cleanupMutG half 2) 0 ≠ IOSession.specsOf IOSession.demo 0 ∧
     IOSession.specsOf (IOSession.cleanup half 2 (IOSession.demo.ios.map (·.iid)) [4]) 0
       = IOSession.specsOf IOSession.demo 0 := by decide +kernel
+
+/-- **A failed load leaves the io state of the session exactly as it was** - after EVERY history, for EVERY list of
+entries a saved model may hold (relative and absolute paths, files already in use, some values already bound when the
+failure strikes): the registry of file objects `IOManager.ios` is the same list (identities, keys, specs, order), and
+every model of the session keeps its references and its `iospecs`. -/
+theorem failed_load_restores_session (ops : List IOSession.Op) (items : List IOSession.Item) :
+    let st := IOSession.run {} ops
+    (IOSession.load st items false).1.ios = st.ios ∧
+    ∀ m', m' ≠ st.nextModel →
+      (IOSession.load st items false).1.refs.filter (fun r => r.model == m') =
+        st.refs.filter (fun r => r.model == m') ∧
+      IOSession.specsOf (IOSession.load st items false).1 m' = IOSession.specsOf st m' :=
+  IOSession.failed_load_restores (IOSession.reachable_inv ops) items
 
 end MxModel.C14
